@@ -96,29 +96,9 @@ func C14typetext(p *load.Program, run *report.Run) {
 				}
 			}
 		}
-		sw, ok := n.(*ast.SwitchStmt)
-		if !ok {
-			return true
-		}
-		for _, st := range sw.Body.List {
-			cc := st.(*ast.CaseClause)
-			ty := ""
-			for _, b := range cc.Body {
-				if as, ok := b.(*ast.AssignStmt); ok && len(as.Lhs) == 1 && len(as.Rhs) == 1 && strings.HasSuffix(types.ExprString(as.Lhs[0]), ".Type") {
-					ty = types.ExprString(as.Rhs[0])
-				}
-			}
-			if ty == "" {
-				continue
-			}
-			for _, e := range cc.List {
-				if tv, ok := info.Types[e]; ok && tv.Value != nil && tv.Value.Kind() == constant.String {
-					names[constant.StringVal(tv.Value)] = ty
-				}
-			}
-		}
 		return true
 	})
+	names = readerNameTable(pkg, parse)
 	if sizedRe == nil || arrRe == nil || len(names) == 0 {
 		run.Undecided("type-text-grammar", "types.Parse", p.Rel(parse.Pos()), "the reader's regular expressions or name table were not recognised")
 		return
